@@ -404,6 +404,49 @@ func c18Scenarios() []c18Scenario {
 			return final(w)
 		}
 	}})
+	// An entry is evicted while its loader is still running (the current generation alone exceeds the
+	// limit, so one cleaner pass rotates and marks it stale), a second caller of the same key comes
+	// after the eviction and loads its own entry, then the first loader returns / fails / panics.
+	for _, kind := range []string{"ok", "failing", "panicking"} {
+		kind := kind
+		res = append(res, c18Scenario{"evicted in flight (" + kind + " loader) + second lookup + cleaner", func() (*c18World, []func(), func() string) {
+			w := newC18World(2)
+			w.caches[1].Get(2, func() (int, int) { return c18Val(1, 2), c18Limit + 20 })
+			var v1, v2, calls1, calls2 int
+			var err1 error
+			first := func() { v1 = w.caches[0].Get(1, loader(0, 1, &calls1)) }
+			switch kind {
+			case "failing":
+				first = func() {
+					v1, err1 = w.caches[0].GetWithError(1, func() (int, int, error) {
+						vsched.Yield("loader")
+						return 0, 0, errors.New("boom")
+					})
+				}
+			case "panicking":
+				first = func() {
+					err1 = errors.New("panicked")
+					vlib.Catch(func() {
+						v1 = w.caches[0].Get(1, func() (int, int) { vsched.Yield("loader"); panic("loader panic") })
+						err1 = nil
+					})
+				}
+			}
+			return w, []func(){
+				first,
+				func() { v2 = w.caches[0].Get(1, loader(0, 1, &calls2)) },
+				cleanerPass(w),
+			}, func() string {
+				if err1 == nil && v1 != c18Val(0, 1) {
+					return fmt.Sprintf("first lookup returned %d without error, loader value %d", v1, c18Val(0, 1))
+				}
+				if v2 != c18Val(0, 1) {
+					return fmt.Sprintf("second lookup returned %d, loader value %d", v2, c18Val(0, 1))
+				}
+				return final(w)
+			}
+		}})
+	}
 	return res
 }
 
@@ -484,7 +527,7 @@ func TestVerifC18(t *testing.T) {
 	}
 	ev := r.Get("evaluations")
 	r.Finish(t, "model_checking",
-		fmt.Sprintf("(a) explicit-state BFS to depth %d from one cleaner (limit %d B) and one cache: operations get / failing get / panicking get (keys 1,2) / Rotate / Cleanup / CleanEmptyGenerations / ReleaseBuckets / Release(c) / NewCache (<=3 caches); successor = replay of the path on a fresh instance + 1 op; canonical state = generation sizes+stale flags, per cache (released, managed, current generation rank, key->size@generation rank); invariants in every state: returned value = loader value, failed/panicked load reported and next lookup reloads, accounted size = sum of live entries, every live cache managed, size <= limit right after Cleanup. (b) all interleavings with <=%d preemptions (-1 = unbounded) of 4 three-thread scenarios (same key twice, failing, panicking, release) with a cleaner pass; loaders contain a scheduling point; invariants at quiescence. distinct_nontrivial = distinct canonical states + scenarios", depth, c18Limit, bound),
+		fmt.Sprintf("(a) explicit-state BFS to depth %d from one cleaner (limit %d B) and one cache: operations get / failing get / panicking get (keys 1,2) / Rotate / Cleanup / CleanEmptyGenerations / ReleaseBuckets / Release(c) / NewCache (<=3 caches); successor = replay of the path on a fresh instance + 1 op; canonical state = generation sizes+stale flags, per cache (released, managed, current generation rank, key->size@generation rank); invariants in every state: returned value = loader value, failed/panicked load reported and next lookup reloads, accounted size = sum of live entries, every live cache managed, size <= limit right after Cleanup. (b) all interleavings with <=%d preemptions (-1 = unbounded) of 8 three-thread scenarios (same key twice, failing, panicking, release, release of the cache sharing the generation of an in-flight load, and an entry evicted while its ok / failing / panicking loader runs followed by a second lookup of the key) with a cleaner pass; loaders contain a scheduling point; invariants at quiescence. distinct_nontrivial = distinct canonical states + scenarios", depth, c18Limit, bound),
 		map[string]any{
 			"states":                        r.Get("bfs_states") + int64(r.DistinctCount("outcomes")),
 			"transitions":                   ev,
